@@ -1,6 +1,6 @@
 (* C19 -- trees: an expression labelled with fresh ids (no sharing) round-trips; this instantiates
    the DAG theorem and shows that its hypotheses are satisfiable for every serialisable tree. *)
-From SE Require Import Codec.CodecSpec Codec.CodecBytes Codec.CodecTotal Codec.CodecNode Codec.CodecRoundtrip.
+From SE Require Import Codec.CodecSpec Codec.CodecBytes Codec.CodecTotal Codec.CodecNode Codec.CodecRoundtrip Codec.CodecDeep.
 From Coq Require Import Lia.
 Local Open Scope N_scope.
 
@@ -116,7 +116,7 @@ Theorem decode_encode_tree : forall sw ver e,
   decode ver (encode sw ver (label e)) = Ok e.
 Proof.
   intros sw ver e V1 V2 S. unfold serialisable in S.
-  apply andb_prop in S. destruct S as [S S3]. apply andb_prop in S. destruct S as [S1 S2].
+  apply andb_prop in S. destruct S as [S2 S3]. pose proof (deep_enough_label e) as S1.
   apply N.ltb_lt in S3.
   destruct (label_fresh_ok (size e + 2) e 1 S1) as [E [L [F N]]].
   unfold label in *.
